@@ -43,7 +43,7 @@ ASSUMPTIONS = [
     "range samplers with 1 sample and min < max cannot contain both end points: only v[0] = f(x[0]) and min <= x[0] <= max are judged",
     "sampler ranges and periodic arguments are bounded by 1e100 / 1e30 in magnitude",
 ]
-QUICK = dict(cases=6000, workers=2, timecap=45)
+QUICK = dict(cases=4000, workers=2, timecap=45)
 THOROUGH = dict(cases=400000, workers=16, timecap=600)
 REQUIRED = {"received_exact": 5000, "received_computed": 1000, "value_exact": 5000, "vector_rotation": 500,
             "periodic_membership": 2000, "periodic_congruence": 2000, "mask_points": 1000,
